@@ -1,7 +1,9 @@
 # per-property evidence level and explanation (see DESIGN.md section 6)
 LEVELS = {
     'C25': 'proof',
+    'C26': 'proof',
 }
 EXPLAIN = {
+    'C26': 'inc/dec of the real bit_reverse_counter<size_t> carry contracts over the state predicate wf(c,r,h) for ALL 2^64 counter states (loops closed by width-complete unwinding); the undo sentence is additionally enforced on two- and three-call sequences of the real code; level/injectivity/prefix lemmas are discharged over the predicate alone. The literal every-n prefix statement is a known finding (false for n != 2^k-1 by design).',
     'C25': 'Function contracts (reference definitions as postconditions) enforced on every function of the bit helpers with all inputs symbolic at full width; callers verified against callee contracts; loops closed by word-width unwinding with unwinding assertions (complete).',
 }
